@@ -13,9 +13,10 @@ def pastPostStart : Phase → Bool
 
 /-- Phase-independent facts about a live (not `done`) actor and the automaton state. -/
 structure Base (a : Actor) (s : St) : Prop where
-  preFailed : s.preFailed = false
+  preFailed : s.preFailed = false ∧ s.mustStart = false
   terminal : s.terminalEmitted = false
-  stopVal : ∀ r, a.stopVal = some r → r.isUser = true ∧ s.stopReason = some r
+  stopVal : (∀ r, a.stopVal = some r → r.isUser = true ∧ s.stopReason = some r) ∧
+    (s.stopReason.isSome = true → a.stopVal.isSome = true ∨ s.took.isSome = true)
   drain : Item.drain ∈ a.msgQ → s.drainReq = true
   stopTx : s.stopReason.isSome = true → a.stopTx = false
   kill : a.sigVal = true → s.killed = true
@@ -26,8 +27,8 @@ structure Core (a : Actor) (s : St) : Prop extends Base a s where
   armed : a.phase ≠ .fresh → a.armed = true
   notify : a.phase.isTask = true → a.notifyOnCancel = true
   started : s.startedEmitted = true → pastPostStart a.phase = true
-  postStop : ∀ r, a.phase = .postStop r →
-    (r.isUser = true ∧ s.stopReason = some r) ∨ (r = .drained ∧ s.drainReq = true)
+  postStop : (∀ r, a.phase = .postStop r → s.took = some r ∧ (r.isUser = true ∨ r = .drained)) ∧
+    (s.took.isSome = true → ∃ r, a.phase = .postStop r)
   freshSig : a.phase = .fresh → a.sigVal = false
 
 /-- Postcondition of every piece of a step of an actor that started the step with identity `id0`
@@ -41,8 +42,13 @@ variable (me : Nat)
 
 /-! ### the automaton on each kind of event -/
 
-@[simp] theorem next_enter (s : St) (cb : Cb) (x : Arg) :
-    next me s (.enter cb x) = .ok { s with startable := false } := rfl
+theorem next_enter (s : St) (cb : Cb) (x : Arg) (h : s.mustStart = false) :
+    next me s (.enter cb x) =
+      .ok { s with startable := false, took := if cb = .postStop then tookOf s else s.took } := by
+  simp [next, h]
+theorem next_enter' (s : St) (cb : Cb) (x : Arg) (h : s.mustStart = false) (hcb : cb ≠ .postStop) :
+    next me s (.enter cb x) = .ok { s with startable := false } := by
+  simp [next, h, hcb]
 @[simp] theorem next_tick (s : St) (cb : Cb) : next me s (.tick cb) = .ok s := rfl
 @[simp] theorem next_sendRet (s : St) (b : Bool) (m : Nat) (ok : Bool) :
     next me s (.sendRet b m ok) = .ok s := rfl
@@ -99,7 +105,7 @@ def exitUpd (cb : Cb) (r : Res) (s : St) : St :=
   match cb, r with
   | .preStart, .ok => s
   | .preStart, _ => { s with preFailed := true }
-  | .postStart, .ok => { s with startable := true }
+  | .postStart, .ok => { s with startable := true, mustStart := s.sup.isSome }
   | .postStop, .ok => { s with postStopOk := true }
   | _, .ok => s
   | _, .err n => { s with fail := some (false, n) }
@@ -127,14 +133,14 @@ theorem next_join_cancelled (s : St) (ha : s.aborted = true)
 
 theorem next_emit_started (s : St) (p : Nat) (hsup : s.sup = some p) (hpf : s.preFailed = false)
     (ht : s.terminalEmitted = false) (hse : s.startedEmitted = false) (hst : s.startable = true) :
-    next me s (.emit p (.started me)) = .ok { s with startedEmitted := true, startable := false } := by
+    next me s (.emit p (.started me)) = .ok { s with startedEmitted := true, startable := false, mustStart := false } := by
   simp [next, SupEv.who, SupEv.isTerminal, hsup, hpf, ht, hse, hst]
 
 theorem next_emit_terminal (s : St) (p : Nat) (e : SupEv) (hw : e.who = me) (hterm : e.isTerminal = true)
-    (hsup : s.sup = some p) (hpf : s.preFailed = false) (ht : s.terminalEmitted = false)
+    (hsup : s.sup = some p) (hpf : s.preFailed = false ∧ s.mustStart = false) (ht : s.terminalEmitted = false)
     (hc : classify s e = .ok ()) :
     next me s (.emit p e) = .ok { s with terminalEmitted := true } := by
-  simp [next, hw, hterm, hsup, hpf, ht, hc]
+  simp [next, hw, hterm, hsup, hpf.1, hpf.2, ht, hc]
 
 
 /-! ### exit paths -/
@@ -147,7 +153,7 @@ theorem cleanup_none (a : Actor) :
   · cases hs : a.sup <;> simp [Actor.setStatus, hs]
 
 theorem cleanup_some (a : Actor) (e : SupEv) (s : St) (hid : a.id = me) (hsup : s.sup = a.sup)
-    (harmed : a.armed = true) (hpf : s.preFailed = false) (ht : s.terminalEmitted = false)
+    (harmed : a.armed = true) (hpf : s.preFailed = false ∧ s.mustStart = false) (ht : s.terminalEmitted = false)
     (hw : e.who = me) (hterm : e.isTerminal = true)
     (hc : a.sup.isSome = true → classify s e = .ok ()) :
     ∃ s', accepts (next me) s (evs (cleanup a (some e)).2) = .ok s' ∧ s'.sup = s.sup ∧
@@ -167,7 +173,7 @@ theorem cleanup_some (a : Actor) (e : SupEv) (s : St) (hid : a.id = me) (hsup : 
     rfl
 
 theorem finish_sim (a : Actor) (e : SupEv) (s : St) (hid : a.id = me) (hsup : s.sup = a.sup)
-    (harmed : a.armed = true) (hpf : s.preFailed = false) (ht : s.terminalEmitted = false)
+    (harmed : a.armed = true) (hpf : s.preFailed = false ∧ s.mustStart = false) (ht : s.terminalEmitted = false)
     (hw : e.who = me) (hterm : e.isTerminal = true)
     (hc : a.sup.isSome = true → classify s e = .ok ()) :
     Sim (next me) (Post me s.sup) s (finish a e) := by
@@ -193,7 +199,7 @@ theorem classify_killed_noState (s : St) (c : Nat) (hk : s.killed = true) :
   simp [classify, hk]
 
 theorem killedOutsideLoop_sim (a : Actor) (s : St) (hid : a.id = me) (hsup : s.sup = a.sup)
-    (harmed : a.armed = true) (hpf : s.preFailed = false) (ht : s.terminalEmitted = false)
+    (harmed : a.armed = true) (hpf : s.preFailed = false ∧ s.mustStart = false) (ht : s.terminalEmitted = false)
     (hk : a.sup.isSome = true → s.killed = true) :
     Sim (next me) (Post me s.sup) s (killedOutsideLoop a) := by
   unfold killedOutsideLoop
@@ -203,7 +209,7 @@ theorem killedOutsideLoop_sim (a : Actor) (s : St) (hid : a.id = me) (hsup : s.s
     (fun h => classify_killed_noState s1 _ (hk h))
 
 theorem killedInLoop_sim (a : Actor) (s : St) (hid : a.id = me) (hsup : s.sup = a.sup)
-    (harmed : a.armed = true) (hpf : s.preFailed = false) (ht : s.terminalEmitted = false)
+    (harmed : a.armed = true) (hpf : s.preFailed = false ∧ s.mustStart = false) (ht : s.terminalEmitted = false)
     (hk : a.sup.isSome = true → s.killed = true) :
     Sim (next me) (Post me s.sup) s (killedInLoop a) := by
   unfold killedInLoop
@@ -219,30 +225,63 @@ theorem killedInLoop_sim (a : Actor) (s : St) (hid : a.id = me) (hsup : s.sup = 
 theorem Base.notStartable {a : Actor} {s : St} (h : Base a s) : Base a { s with startable := false } :=
   ⟨h.preFailed, h.terminal, h.stopVal, h.drain, h.stopTx, h.kill, h.localEq⟩
 
-theorem enterPostStop_sim (a : Actor) (r : Reason) (s : St) (hid : a.id = me) (hb : Base a s)
-    (harmed : a.armed = true) (hn : a.notifyOnCancel = true)
-    (hr : (r.isUser = true ∧ s.stopReason = some r) ∨ (r = .drained ∧ s.drainReq = true)) :
+theorem tookOf_isSome (s : St) : (tookOf s).isSome = true := by
+  unfold tookOf; split <;> rfl
+
+theorem postStop_of_none {ph : Phase} {s : St} (h1 : ∀ r, ph ≠ .postStop r) (h2 : s.took = none) :
+    (∀ r, ph = .postStop r → s.took = some r ∧ (r.isUser = true ∨ r = .drained)) ∧
+    (s.took.isSome = true → ∃ r, ph = .postStop r) :=
+  ⟨fun r hr => absurd hr (h1 r), fun h => by rw [h2] at h; cases h⟩
+
+theorem Core.tookNone {a : Actor} {s : St} (hc : Core a s) (h : ∀ r, a.phase ≠ .postStop r) : s.took = none := by
+  cases ht : s.took with
+  | none => rfl
+  | some x =>
+    obtain ⟨r, hr⟩ := hc.postStop.2 (by simp [ht])
+    exact absurd hr (h r)
+
+/-- The loop leaves through `ActorLoopResult::stop(r)`: `post_stop` is entered; `r` is the request the
+automaton says the loop took. The stop port of `a` is empty (the stop was just taken out, or the
+drain marker was reached with no stop pending). -/
+theorem enterPostStop_sim (a : Actor) (r : Reason) (s : St) (hid : a.id = me)
+    (hpf : s.preFailed = false ∧ s.mustStart = false) (ht : s.terminalEmitted = false)
+    (hsv : a.stopVal = none) (hdr : Item.drain ∈ a.msgQ → s.drainReq = true)
+    (hstx : s.stopReason.isSome = true → a.stopTx = false) (hk : a.sigVal = true → s.killed = true)
+    (hloc : s.isLocal = a.isLocal)
+    (harmed : a.armed = true) (hn : a.notifyOnCancel = true) (htook : tookOf s = some r)
+    (hru : r.isUser = true ∨ r = .drained) :
     Sim (next me) (Post me s.sup) s (enterPostStop a r) := by
-  refine ⟨{ s with startable := false }, by simp [enterPostStop, accepts_cons], ?_, rfl, Or.inr ?_⟩
+  refine ⟨{ s with startable := false, took := tookOf s }, ?_, ?_, rfl, Or.inr ?_⟩
+  · simp [enterPostStop, accepts_cons, next_enter me s .postStop .none hpf.2]
   · simp [enterPostStop, Actor.setStatus, hid]
-  · exact { preFailed := hb.preFailed, terminal := hb.terminal,
-            localEq := (by simpa [enterPostStop, Actor.setStatus] using hb.localEq),
+  · exact { preFailed := hpf, terminal := ht,
+            localEq := (by simpa [enterPostStop, Actor.setStatus] using hloc),
             freshSig := (by intro hfr; simp [enterPostStop] at hfr),
-            stopVal := by simpa [enterPostStop, Actor.setStatus] using hb.stopVal,
-            drain := by simpa [enterPostStop, Actor.setStatus] using hb.drain,
-            stopTx := by simpa [enterPostStop, Actor.setStatus] using hb.stopTx,
-            kill := by simpa [enterPostStop, Actor.setStatus] using hb.kill,
+            stopVal := ⟨by intro r' hr'; simp [enterPostStop, Actor.setStatus, hsv] at hr',
+                        fun _ => Or.inr (tookOf_isSome s)⟩,
+            drain := by simpa [enterPostStop, Actor.setStatus] using hdr,
+            stopTx := by simpa [enterPostStop, Actor.setStatus] using hstx,
+            kill := by simpa [enterPostStop, Actor.setStatus] using hk,
             armed := by intro _; simpa [enterPostStop, Actor.setStatus] using harmed,
             notify := by intro _; simpa [enterPostStop, Actor.setStatus] using hn,
             started := by intro _; simp [enterPostStop, pastPostStart],
-            postStop := by
+            postStop := ⟨by
               intro r' hr'
               have : r' = r := by simpa [enterPostStop] using hr'.symm
-              subst this; simpa using hr }
+              subst this; exact ⟨htook, hru⟩,
+              fun _ => ⟨r, by simp [enterPostStop]⟩⟩ }
 
 theorem listen_sim (a : Actor) (s : St) (hid : a.id = me) (hsup : s.sup = a.sup) (hb : Base a s)
-    (harmed : a.armed = true) (hn : a.notifyOnCancel = true) :
+    (harmed : a.armed = true) (hn : a.notifyOnCancel = true) (htk : s.took = none) :
     Sim (next me) (Post me s.sup) s (listen a) := by
+  have hms := hb.preFailed.2
+  -- a live loop phase: nothing of the automaton's `took` yet
+  have hps : ∀ (ph : Phase) (s' : St), s'.took = s.took → (∀ r, ph ≠ .postStop r) →
+      (∀ r, ph = .postStop r → s'.took = some r ∧ (r.isUser = true ∨ r = .drained)) ∧
+      (s'.took.isSome = true → ∃ r, ph = .postStop r) := by
+    intro ph s' h1 h2
+    refine ⟨fun r hr => absurd hr (h2 r), ?_⟩
+    intro h; rw [h1, htk] at h; cases h
   unfold listen
   split
   · rename_i hsig
@@ -254,50 +293,58 @@ theorem listen_sim (a : Actor) (s : St) (hid : a.id = me) (hsup : s.sup = a.sup)
     split
     · rename_i r hr
       have hr' : a.stopVal = some r := hr
-      refine enterPostStop_sim me _ r s hid ?_ harmed hn (Or.inl (hb.stopVal r hr'))
-      exact ⟨hb.preFailed, hb.terminal, by simp, by simpa using hb.drain, by simpa using hb.stopTx, by simpa using hb.kill, by simpa using hb.localEq⟩
+      have hsr := (hb.stopVal.1 r hr').2
+      exact enterPostStop_sim me _ r s hid hb.preFailed hb.terminal rfl (by simpa using hb.drain)
+        (by simpa using hb.stopTx) (by simpa using hb.kill) (by simpa using hb.localEq) harmed hn
+        (by simp [tookOf, hsr]) (Or.inl (hb.stopVal.1 r hr').1)
     · rename_i hstop
       have hstop' : a.stopVal = none := hstop
+      have hnoStop : s.stopReason = none := by
+        cases hsr : s.stopReason with
+        | none => rfl
+        | some x =>
+          rcases hb.stopVal.2 (by simp [hsr]) with h | h
+          · rw [hstop'] at h; cases h
+          · rw [htk] at h; cases h
       split
       · rename_i e q hq
-        refine ⟨{ s with startable := false }, by simp [accepts_cons], hid, rfl, Or.inr ?_⟩
+        refine ⟨{ s with startable := false }, by simp [accepts_cons, next_enter' me s .sup _ hms], hid, rfl, Or.inr ?_⟩
         exact { preFailed := hb.preFailed, terminal := hb.terminal, localEq := (by simpa using hb.localEq), freshSig := (by intro hfr; simp at hfr),
                 stopVal := by simpa using hb.stopVal, drain := by simpa using hb.drain,
                 stopTx := by simpa using hb.stopTx, kill := by simpa using hb.kill,
                 armed := by intro _; simpa using harmed, notify := by intro _; simpa using hn,
-                started := by intro _; rfl, postStop := by intro r hr; simp at hr }
+                started := by intro _; rfl, postStop := hps _ _ rfl (by simp) }
       · split
         · rename_i m q hm
           have hm' : a.msgQ = .msg m :: q := hm
-          refine ⟨{ s with startable := false }, by simp [accepts_cons], hid, rfl, Or.inr ?_⟩
+          refine ⟨{ s with startable := false }, by simp [accepts_cons, next_enter' me s .handle _ hms], hid, rfl, Or.inr ?_⟩
           exact { preFailed := hb.preFailed, terminal := hb.terminal, localEq := (by simpa using hb.localEq), freshSig := (by intro hfr; simp at hfr),
                   stopVal := by simpa using hb.stopVal,
                   drain := by intro h; apply hb.drain; rw [hm']; exact List.mem_cons_of_mem _ (by simpa using h),
                   stopTx := by simpa using hb.stopTx, kill := by simpa using hb.kill,
                   armed := by intro _; simpa using harmed, notify := by intro _; simpa using hn,
-                  started := by intro _; rfl, postStop := by intro r hr; simp at hr }
+                  started := by intro _; rfl, postStop := hps _ _ rfl (by simp) }
         · rename_i k q hm
           have hm' : a.msgQ = .call k :: q := hm
-          refine ⟨{ s with startable := false }, by simp [accepts_cons], hid, rfl, Or.inr ?_⟩
+          refine ⟨{ s with startable := false }, by simp [accepts_cons, next_enter' me s .handle _ hms], hid, rfl, Or.inr ?_⟩
           exact { preFailed := hb.preFailed, terminal := hb.terminal, localEq := (by simpa using hb.localEq), freshSig := (by intro hfr; simp at hfr),
                   stopVal := by simpa using hb.stopVal,
                   drain := by intro h; apply hb.drain; rw [hm']; exact List.mem_cons_of_mem _ (by simpa using h),
                   stopTx := by simpa using hb.stopTx, kill := by simpa using hb.kill,
                   armed := by intro _; simpa using harmed, notify := by intro _; simpa using hn,
-                  started := by intro _; rfl, postStop := by intro r hr; simp at hr }
+                  started := by intro _; rfl, postStop := hps _ _ rfl (by simp) }
         · rename_i q hm
           have hm' : a.msgQ = .drain :: q := hm
-          refine enterPostStop_sim me _ .drained s hid ?_ harmed hn
-            (Or.inr ⟨rfl, hb.drain (by rw [hm']; exact List.mem_cons_self ..)⟩)
-          exact ⟨hb.preFailed, hb.terminal, by simpa using hb.stopVal,
-            by intro h; apply hb.drain; rw [hm']; exact List.mem_cons_of_mem _ (by simpa using h),
-            by simpa using hb.stopTx, by simpa using hb.kill, by simpa using hb.localEq⟩
+          exact enterPostStop_sim me _ .drained s hid hb.preFailed hb.terminal (by simpa using hstop')
+            (by intro h; apply hb.drain; rw [hm']; exact List.mem_cons_of_mem _ (by simpa using h))
+            (by simpa using hb.stopTx) (by simpa using hb.kill) (by simpa using hb.localEq) harmed hn
+            (by simp [tookOf, hnoStop]) (Or.inr rfl)
         · refine ⟨s, by simp, hid, rfl, Or.inr ?_⟩
           exact { preFailed := hb.preFailed, terminal := hb.terminal, localEq := (by simpa using hb.localEq), freshSig := (by intro hfr; simp at hfr),
                   stopVal := by simpa using hb.stopVal, drain := by simpa using hb.drain,
                   stopTx := by simpa using hb.stopTx, kill := by simpa using hb.kill,
                   armed := by intro _; simpa using harmed, notify := by intro _; simpa using hn,
-                  started := by intro _; rfl, postStop := by intro r hr; simp at hr }
+                  started := by intro _; rfl, postStop := hps _ _ rfl (by simp) }
 
 
 /-! ### API calls (harness ops and the self side effects of a segment) -/
@@ -331,8 +378,8 @@ theorem apiDrain_frame (a : Actor) : Frame a (apiDrain a).1 := by
 theorem Core.ofFrame {a0 a : Actor} {s0 s : St} (hf : Frame a0 a) (hc : Core a0 s0) (hb : Base a s)
     (hfs : a0.phase = .fresh → a.sigVal = false)
     (hse : s.startedEmitted = s0.startedEmitted)
-    (hps : ∀ r, a0.phase = .postStop r →
-      (r.isUser = true ∧ s.stopReason = some r) ∨ (r = .drained ∧ s.drainReq = true)) : Core a s :=
+    (hps : (∀ r, a0.phase = .postStop r → s.took = some r ∧ (r.isUser = true ∨ r = .drained)) ∧
+      (s.took.isSome = true → ∃ r, a0.phase = .postStop r)) : Core a s :=
   { hb with
     armed := by rw [hf.phase, hf.armed]; exact hc.armed
     notify := by rw [hf.phase, hf.notify]; exact hc.notify
@@ -381,12 +428,8 @@ theorem stop_core {a : Actor} {s : St} (r : Reason) (hu : r.isUser = true) (hc :
     simp only [↓reduceIte]
     refine Core.ofFrame hf hc ⟨hc.preFailed, hc.terminal, ?_, by rw [h1]; exact hc.drain, fun _ => htx',
       by rw [h2]; exact hc.kill, by rw [hf.isLocal]; simpa using hc.localEq⟩
-      (by rw [h2]; exact hc.freshSig) rfl ?_
-    · intro r' hr'; rw [hv] at hr'; cases hr'; exact ⟨hu, rfl⟩
-    · intro r' hp
-      rcases hc.postStop r' hp with ⟨_, h⟩ | h
-      · rw [hnone] at h; cases h
-      · exact Or.inr h
+      (by rw [h2]; exact hc.freshSig) rfl hc.postStop
+    exact ⟨by intro r' hr'; rw [hv] at hr'; cases hr'; exact ⟨hu, rfl⟩, fun _ => Or.inl (by rw [hv]; rfl)⟩
   | false =>
     obtain ⟨hv, htx⟩ := h4 hr
     simp only [Bool.false_eq_true, ↓reduceIte]
@@ -447,11 +490,7 @@ theorem drain_core {a : Actor} {s : St} (hc : Core a s) :
     simp only [↓reduceIte]
     refine Core.ofFrame hf hc ⟨hc.preFailed, hc.terminal, by rw [h1]; exact hc.stopVal, fun _ => rfl,
       by rw [h2]; exact hc.stopTx, by rw [h3]; exact hc.kill, by rw [hf.isLocal]; simpa using hc.localEq⟩
-      (by rw [h3]; exact hc.freshSig) rfl ?_
-    intro r hp
-    rcases hc.postStop r hp with h | ⟨h, _⟩
-    · exact Or.inl h
-    · exact Or.inr ⟨h, rfl⟩
+      (by rw [h3]; exact hc.freshSig) rfl hc.postStop
   | false =>
     simp only [Bool.false_eq_true, ↓reduceIte]
     rcases h4 with h4 | h4
@@ -580,11 +619,11 @@ theorem classify_failed (s : St) (c : Nat) (p : Bool) (n : Nat) (h : s.fail = so
   simp [classify, h]
 
 theorem classify_graceful (s : St) (c : Nat) (r : Reason) (hps : s.postStopOk = true)
-    (hr : (r.isUser = true ∧ s.stopReason = some r) ∨ (r = .drained ∧ s.drainReq = true)) :
+    (hr : r.isUser = true ∨ r = .drained) (htk : s.took = some r) :
     classify s (.terminated c (!s.isLocal) r) = .ok () := by
-  rcases hr with ⟨hu, hs⟩ | ⟨hd, hq⟩
-  · cases r <;> simp [Reason.isUser] at hu <;> cases hl : s.isLocal <;> simp [classify, hps, hs, hl]
-  · subst hd; cases hl : s.isLocal <;> simp [classify, hps, hq, hl]
+  rcases hr with hu | hd
+  · cases r <;> simp [Reason.isUser] at hu <;> cases hl : s.isLocal <;> simp [classify, hps, htk, hl]
+  · subst hd; cases hl : s.isLocal <;> simp [classify, hps, htk, hl]
 
 theorem classify_cancelled (s : St) (c : Nat) (h : s.aborted = true) :
     classify s (.terminated c false .cancelled) = .ok () := by
@@ -606,9 +645,18 @@ theorem exitUpd_preFailed (cb : Cb) (r : Res) (s : St) (h : cb ≠ .preStart) :
     (exitUpd cb r s).preFailed = s.preFailed := by
   cases cb <;> cases r <;> first | rfl | exact absurd rfl h
 
-theorem exitUpd_base {a : Actor} {s : St} (cb : Cb) (r : Res) (h : cb ≠ .preStart) (hb : Base a s) :
+theorem exitUpd_mustStart (cb : Cb) (r : Res) (s : St) (h : cb = .postStart → r = .ok → s.sup = none)
+    (hm : s.mustStart = false) : (exitUpd cb r s).mustStart = false := by
+  cases cb <;> cases r <;> first | exact hm | (simp [exitUpd, h rfl rfl])
+
+theorem exitUpd_took (cb : Cb) (r : Res) (s : St) : (exitUpd cb r s).took = s.took := by
+  cases cb <;> cases r <;> rfl
+
+theorem exitUpd_base {a : Actor} {s : St} (cb : Cb) (r : Res) (h : cb ≠ .preStart)
+    (h2 : cb = .postStart → r = .ok → s.sup = none) (hb : Base a s) :
     Base a (exitUpd cb r s) := by
-  refine ⟨by rw [exitUpd_preFailed cb r s h]; exact hb.preFailed, by rw [exitUpd_terminal]; exact hb.terminal, ?_, ?_, ?_, ?_, ?_⟩
+  refine ⟨⟨by rw [exitUpd_preFailed cb r s h]; exact hb.preFailed.1, exitUpd_mustStart cb r s h2 hb.preFailed.2⟩,
+    by rw [exitUpd_terminal]; exact hb.terminal, ?_, ?_, ?_, ?_, ?_⟩
   · cases cb <;> cases r <;> exact hb.stopVal
   · cases cb <;> cases r <;> exact hb.drain
   · cases cb <;> cases r <;> exact hb.stopTx
@@ -629,7 +677,8 @@ theorem failed_sim (a a' : Actor) (s2 : St) (cb : Cb) (r : Res) (hid : a.id = me
     Sim (next me) (Post me s2.sup) (exitUpd cb r s2) (finish a' (failedEv a r)) := by
   have := finish_sim me a' (failedEv a r) (exitUpd cb r s2) (by rw [h1]; exact hid)
     (by rw [exitUpd_sup, h2]; exact hsup) (by rw [h3]; exact harmed)
-    (by rw [exitUpd_preFailed cb r s2 hcb]; exact hb.preFailed) (by rw [exitUpd_terminal]; exact hb.terminal)
+    ⟨by rw [exitUpd_preFailed cb r s2 hcb]; exact hb.preFailed.1,
+     exitUpd_mustStart cb r s2 (fun _ h => absurd h hr) hb.preFailed.2⟩ (by rw [exitUpd_terminal]; exact hb.terminal)
     (by cases r <;> simp [failedEv, SupEv.who, hid]) (by cases r <;> rfl)
     (fun _ => exitUpd_fail cb r s2 hcb hr a)
   rwa [exitUpd_sup] at this
@@ -642,10 +691,12 @@ theorem afterExit_sim (a : Actor) (s2 : St) (cb : Cb) (r : Res) (hid : a.id = me
   subst hid
   have harmed : a.armed = true := hc.armed (by intro h; simp [h, Phase.isTask] at htask)
   have hn : a.notifyOnCancel = true := hc.notify htask
-  have hlisten : cb ≠ .preStart → Sim (next a.id) (Post a.id s2.sup) (exitUpd cb r s2) (listen a) := by
-    intro h
+  have hlisten : cb ≠ .preStart → cb ≠ .postStart → (∀ x, a.phase ≠ .postStop x) →
+      Sim (next a.id) (Post a.id s2.sup) (exitUpd cb r s2) (listen a) := by
+    intro h h' hnp
     have := listen_sim a.id a (exitUpd cb r s2) rfl (by rw [exitUpd_sup]; exact hsup)
-      (exitUpd_base cb r h hc.toBase) harmed hn
+      (exitUpd_base cb r h (fun hx => absurd hx h') hc.toBase) harmed hn
+      (by rw [exitUpd_took]; exact hc.tookNone hnp)
     rwa [exitUpd_sup] at this
   cases hph : a.phase with
   | fresh => simp [hph, Phase.isTask] at htask
@@ -664,24 +715,27 @@ theorem afterExit_sim (a : Actor) (s2 : St) (cb : Cb) (r : Res) (hid : a.id = me
         cases h : s2.startedEmitted with
         | false => rfl
         | true => have := hc.started h; simp [hph, pastPostStart] at this
-      have hb := exitUpd_base (a := a) .postStart .ok (by simp) hc.toBase
-      refine Sim.andThen _ (R1 := fun a1 s1 => a1 = a.setStatus .running ∧ s1.sup = s2.sup ∧ Base a1 s1) ?_ ?_
+      have htk0 : s2.took = none := hc.tookNone (by simp [hph])
+      refine Sim.andThen _ (R1 := fun a1 s1 => a1 = a.setStatus .running ∧ s1.sup = s2.sup ∧ Base a1 s1 ∧ s1.took = none) ?_ ?_
       · cases hs : a.sup with
         | none =>
+          have hb := exitUpd_base (a := a) .postStart .ok (by simp) (fun _ _ => by rw [hsup, hs]) hc.toBase
           exact ⟨exitUpd .postStart .ok s2, by simp [Actor.setStatus, hs], rfl, rfl,
-            hb.congr (by rfl) (by rfl) (by rfl) (by rfl) (by rfl) (by rfl)⟩
+            hb.congr (by rfl) (by rfl) (by rfl) (by rfl) (by rfl) (by rfl), htk0⟩
         | some p =>
-          refine ⟨{ (exitUpd .postStart .ok s2) with startedEmitted := true, startable := false }, ?_, rfl, rfl, ?_⟩
+          refine ⟨{ (exitUpd .postStart .ok s2) with startedEmitted := true, startable := false, mustStart := false },
+            ?_, rfl, rfl, ?_, htk0⟩
           · simp only [Actor.setStatus, hs, evs_cons_ev, evs_nil]
             rw [accepts_cons_ok _ _ (by
               exact next_emit_started a.id (exitUpd .postStart .ok s2) p (by rw [exitUpd_sup, hsup, hs])
-                hb.preFailed hb.terminal hse rfl)]
+                hc.preFailed.1 hc.terminal hse rfl)]
             rfl
-          · exact ⟨hb.preFailed, hb.terminal, hb.stopVal, hb.drain, hb.stopTx, hb.kill, by simpa [Actor.setStatus] using hb.localEq⟩
-      · rintro a1 s1 ⟨rfl, hs1, hb1⟩
+          · exact ⟨⟨hc.preFailed.1, rfl⟩, hc.terminal, hc.stopVal, hc.drain, hc.stopTx, hc.kill,
+              by have := hc.localEq; simpa [exitUpd, Actor.setStatus] using this⟩
+      · rintro a1 s1 ⟨rfl, hs1, hb1, htk1⟩
         have := listen_sim a.id (a.setStatus .running) s1 (by simp [Actor.setStatus])
           (by rw [hs1]; simpa [Actor.setStatus] using hsup) hb1 (by simpa [Actor.setStatus] using harmed)
-          (by simpa [Actor.setStatus] using hn)
+          (by simpa [Actor.setStatus] using hn) htk1
         rwa [hs1] at this
     | err n =>
       simp only [afterExit, hph]
@@ -693,7 +747,7 @@ theorem afterExit_sim (a : Actor) (s2 : St) (cb : Cb) (r : Res) (hid : a.id = me
     have hcb' : cb = .handle := by simp [hph, Phase.openCb] at hcb; exact hcb.symm
     subst hcb'
     cases r with
-    | ok => simp only [afterExit, hph]; exact hlisten (by simp)
+    | ok => simp only [afterExit, hph]; exact hlisten (by simp) (by simp) (by simp [hph])
     | err n =>
       simp only [afterExit, hph]
       exact failed_sim a.id a _ s2 _ _ rfl hsup hc.toBase harmed (by simp) (by simp) rfl rfl rfl
@@ -704,7 +758,7 @@ theorem afterExit_sim (a : Actor) (s2 : St) (cb : Cb) (r : Res) (hid : a.id = me
     have hcb' : cb = .sup := by simp [hph, Phase.openCb] at hcb; exact hcb.symm
     subst hcb'
     cases r with
-    | ok => simp only [afterExit, hph]; exact hlisten (by simp)
+    | ok => simp only [afterExit, hph]; exact hlisten (by simp) (by simp) (by simp [hph])
     | err n =>
       simp only [afterExit, hph]
       exact failed_sim a.id a _ s2 _ _ rfl hsup hc.toBase harmed (by simp) (by simp) rfl rfl rfl
@@ -717,11 +771,11 @@ theorem afterExit_sim (a : Actor) (s2 : St) (cb : Cb) (r : Res) (hid : a.id = me
     cases r with
     | ok =>
       simp only [afterExit, hph]
-      have hb := exitUpd_base (a := a) .postStop .ok (by simp) hc.toBase
+      have hb := exitUpd_base (a := a) .postStop .ok (by simp) (by intro h; cases h) hc.toBase
       have hloc : a.isLocal = (exitUpd .postStop .ok s2).isLocal := hb.localEq.symm
       have := finish_sim a.id a (.terminated a.id (!a.isLocal) rs) (exitUpd .postStop .ok s2) rfl
         (by rw [exitUpd_sup]; exact hsup) harmed hb.preFailed hb.terminal (by simp [SupEv.who]) rfl
-        (fun _ => by rw [hloc]; exact classify_graceful (exitUpd .postStop .ok s2) _ rs rfl (hc.postStop rs hph))
+        (fun _ => by rw [hloc]; exact classify_graceful (exitUpd .postStop .ok s2) _ rs rfl (hc.postStop.1 rs hph).2 (hc.postStop.1 rs hph).1)
       rwa [exitUpd_sup] at this
     | err n =>
       simp only [afterExit, hph]
@@ -763,18 +817,18 @@ theorem afterPre_sim (a : Actor) (s2 : St) (supOk : Bool) (r : Res) (hid : a.id 
               armed := by intro _; rw [h3]; exact harmed
               notify := by intro _; exact h4
               started := by intro h; rw [show (exitUpd Cb.preStart Res.ok s2).startedEmitted = s2.startedEmitted from rfl, hse] at h; cases h
-              postStop := by intro r hr; rw [h2] at hr; cases hr }
+              postStop := postStop_of_none (by rw [h2]; simp) (hc.tookNone (by simp [hph])) }
     split
     · split
       · have := failSpawn_sim me a .nolink (exitUpd .preStart .ok s2) hid rfl
         simpa [exitUpd_sup] using this
       · refine ⟨exitUpd .preStart .ok s2, ?_, hlinked _ rfl rfl rfl rfl rfl rfl rfl rfl rfl⟩
         simp only [andThen_snd, evs_append, evs_doLink, evs_cons_ev, evs_nil, List.nil_append]
-        rw [accepts_cons_ok _ _ (next_spawnRet_ok me (exitUpd .preStart .ok s2) hc.preFailed)]
+        rw [accepts_cons_ok _ _ (next_spawnRet_ok me (exitUpd .preStart .ok s2) hc.preFailed.1)]
         rfl
     · refine ⟨exitUpd .preStart .ok s2, ?_, hlinked _ rfl rfl rfl rfl rfl rfl rfl rfl rfl⟩
       simp only [evs_cons_ev, evs_nil]
-      rw [accepts_cons_ok _ _ (next_spawnRet_ok me (exitUpd .preStart .ok s2) hc.preFailed)]
+      rw [accepts_cons_ok _ _ (next_spawnRet_ok me (exitUpd .preStart .ok s2) hc.preFailed.1)]
       rfl
 
 theorem openCb_ne_pre {ph : Phase} {cb : Cb} (h : ph.openCb = some cb) (ht : ph.isTask = true) : cb ≠ .preStart := by
@@ -831,7 +885,7 @@ theorem opPoll_sim (a : Actor) (s : St) (h : Inv me a s) : Sim (next me) (Post m
         intro _
         exact hc.kill hsig
       exact killedOutsideLoop_sim me _ s hid hsup harmed hc.preFailed hc.terminal hk
-    · refine ⟨{ s with startable := false }, by simp [accepts_cons], hid, rfl, Or.inr ?_⟩
+    · refine ⟨{ s with startable := false }, by simp [accepts_cons, next_enter' me s .postStart _ hc.preFailed.2], hid, rfl, Or.inr ?_⟩
       have hse : s.startedEmitted = false := by
         cases h' : s.startedEmitted with
         | false => rfl
@@ -844,11 +898,11 @@ theorem opPoll_sim (a : Actor) (s : St) (h : Inv me a s) : Sim (next me) (Post m
               armed := by intro _; simpa using harmed
               notify := by intro _; simpa using hc.notify (by simp [hph, Phase.isTask])
               started := by intro h'; simp [hse] at h'
-              postStop := by intro r hr; simp at hr }
+              postStop := postStop_of_none (by simp) (hc.tookNone (by simp [hph])) }
   · rename_i hph
     have hc := Inv.core me h (by simp [hph])
     exact listen_sim me _ s hid hsup (hc.toBase.congr (by rfl) (by rfl) (by rfl) (by rfl) (by rfl) (by rfl))
-      (hc.armed (by simp [hph])) (hc.notify (by simp [hph, Phase.isTask]))
+      (hc.armed (by simp [hph])) (hc.notify (by simp [hph, Phase.isTask])) (hc.tookNone (by simp [hph]))
   · rename_i hph
     exact pollOpen_sim me a s _ hid hsup (Inv.core me h (by simp [hph])) (by simp [hph, Phase.openCb]) (by simp [hph, Phase.isTask])
   · rename_i hph
@@ -884,19 +938,20 @@ theorem opSpawn_sim (a : Actor) (s : St) (sup : Option Nat) (name : Option Strin
     have hnew : ∀ (a' : Actor) (s' : St), a'.phase = .pre → a'.armed = true → a'.stopVal = a.stopVal →
         a'.msgQ = a.msgQ → a'.stopTx = a.stopTx → a'.sigVal = a.sigVal → s'.isLocal = a'.isLocal →
         s'.preFailed = s.preFailed → s'.terminalEmitted = s.terminalEmitted → s'.stopReason = s.stopReason →
-        s'.drainReq = s.drainReq → s'.startedEmitted = s.startedEmitted → Core a' s' := by
-      intro a' s' h0 h1 h3 h4 h5 h6 hl p1 p2 p3 p4 p5
-      exact { preFailed := by rw [p1]; exact hc.preFailed, terminal := by rw [p2]; exact hc.terminal
+        s'.drainReq = s.drainReq → s'.startedEmitted = s.startedEmitted → s'.mustStart = s.mustStart →
+        s'.took = s.took → Core a' s' := by
+      intro a' s' h0 h1 h3 h4 h5 h6 hl p1 p2 p3 p4 p5 p7 p8
+      exact { preFailed := by rw [p1, p7]; exact hc.preFailed, terminal := by rw [p2]; exact hc.terminal
               localEq := hl
               freshSig := by intro hfr; rw [h0] at hfr; cases hfr
-              stopVal := by rw [h3, p3]; exact hc.stopVal
+              stopVal := by rw [h3, p3, p8]; exact hc.stopVal
               drain := by rw [h4, p4]; exact hc.drain
               stopTx := by rw [h5, p3]; exact hc.stopTx
               kill := by rw [h6, hsig]; intro hk; cases hk
               armed := by intro _; exact h1
               notify := by intro h'; rw [h0] at h'; simp [Phase.isTask] at h'
               started := by intro h'; rw [p5, hse] at h'; cases h'
-              postStop := by intro r hr; rw [h0] at hr; cases hr }
+              postStop := postStop_of_none (by rw [h0]; simp) (by rw [p8]; exact hc.tookNone (by simp [hph])) }
     split
     · split
       · split
@@ -905,17 +960,22 @@ theorem opSpawn_sim (a : Actor) (s : St) (sup : Option Nat) (name : Option Strin
           simp only [evs_cons_ev, evs_nil]
           rw [accepts_cons_ok _ _ (next_spawnRet_err me s .nolink rfl)]
           rfl
-        · refine ⟨{ s with isLocal := true, startable := false }, by simp [accepts_cons], hid, rfl, Or.inr ?_⟩
-          exact hnew _ _ rfl rfl rfl rfl rfl rfl rfl rfl rfl rfl rfl rfl
-      · refine ⟨{ s with isLocal := true, startable := false }, by simp [accepts_cons], hid, rfl, Or.inr ?_⟩
-        exact hnew _ _ rfl rfl rfl rfl rfl rfl rfl rfl rfl rfl rfl rfl
-    · refine ⟨{ s with startable := false }, by simp [accepts_cons], hid, rfl, Or.inr ?_⟩
-      exact hnew _ _ rfl rfl rfl rfl rfl rfl (by simpa using hc.localEq) rfl rfl rfl rfl rfl
+        · refine ⟨{ s with isLocal := true, startable := false },
+            by simp [accepts_cons, next_enter' me _ .preStart _ (show ({ s with isLocal := true } : St).mustStart = false from hc.preFailed.2)],
+            hid, rfl, Or.inr ?_⟩
+          exact hnew _ _ rfl rfl rfl rfl rfl rfl rfl rfl rfl rfl rfl rfl rfl rfl
+      · refine ⟨{ s with isLocal := true, startable := false },
+          by simp [accepts_cons, next_enter' me _ .preStart _ (show ({ s with isLocal := true } : St).mustStart = false from hc.preFailed.2)],
+          hid, rfl, Or.inr ?_⟩
+        exact hnew _ _ rfl rfl rfl rfl rfl rfl rfl rfl rfl rfl rfl rfl rfl rfl
+    · refine ⟨{ s with startable := false }, by simp [accepts_cons, next_enter' me s .preStart _ hc.preFailed.2], hid, rfl, Or.inr ?_⟩
+      exact hnew _ _ rfl rfl rfl rfl rfl rfl (by simpa using hc.localEq) rfl rfl rfl rfl rfl rfl rfl
   · exact ⟨s, rfl, by rw [hsup]; exact h⟩
 
 theorem core_enter_pre {a a' : Actor} {s : St} (hc : Core a s) (hse : s.startedEmitted = false)
     (h0 : a'.phase = .pre) (h1 : a'.armed = true) (h3 : a'.stopVal = a.stopVal) (h4 : a'.msgQ = a.msgQ)
-    (h5 : a'.stopTx = a.stopTx) (h6 : a'.sigVal = a.sigVal) (h8 : a'.isLocal = a.isLocal) :
+    (h5 : a'.stopTx = a.stopTx) (h6 : a'.sigVal = a.sigVal) (h8 : a'.isLocal = a.isLocal)
+    (hnp : ∀ r, a.phase ≠ .postStop r) :
     Core a' { s with startable := false } :=
   { preFailed := hc.preFailed, terminal := hc.terminal
     localEq := by rw [h8]; exact hc.localEq
@@ -930,7 +990,7 @@ theorem core_enter_pre {a a' : Actor} {s : St} (hc : Core a s) (hse : s.startedE
       intro h'
       rw [show ({ s with startable := false } : St).startedEmitted = s.startedEmitted from rfl, hse] at h'
       cases h'
-    postStop := by intro r hr; rw [h0] at hr; cases hr }
+    postStop := postStop_of_none (by rw [h0]; simp) (hc.tookNone hnp) }
 
 theorem beginPre_sim (a : Actor) (s : St) (hid : a.id = me) (hc : Core a s) (hph : a.phase = .cell) :
     Sim (next me) (Post me s.sup) s (beginPre a) := by
@@ -944,8 +1004,9 @@ theorem beginPre_sim (a : Actor) (s : St) (hid : a.id = me) (hc : Core a s) (hph
       ⟨s, by simp [handleSignal], rfl, by simpa [handleSignal] using hid⟩ ?_
     rintro a2 s2 ⟨rfl, hid2⟩
     exact failSpawn_sim me a2 .killed s2 hid2 rfl
-  · refine ⟨{ s with startable := false }, by simp [accepts_cons], by simpa using hid, rfl, Or.inr ?_⟩
-    exact core_enter_pre hc hse rfl (hc.armed (by simp [hph])) rfl rfl rfl rfl rfl
+  · refine ⟨{ s with startable := false }, by simp [accepts_cons, next_enter' me s .preStart _ hc.preFailed.2],
+      by simpa using hid, rfl, Or.inr ?_⟩
+    exact core_enter_pre hc hse rfl (hc.armed (by simp [hph])) rfl rfl rfl rfl rfl (by simp [hph])
 
 theorem startInstant_sim (a : Actor) (s : St) (supOk : Bool) (hid : a.id = me) (hc : Core a s)
     (hph : a.phase = .cell) : Sim (next me) (Post me s.sup) s (startInstant a supOk) := by
@@ -984,24 +1045,25 @@ theorem opSpawnInstant_sim (a : Actor) (s : St) (sup : Option Nat) (name : Optio
     have hnew : ∀ (a' : Actor) (s' : St), a'.phase = .cell → a'.armed = true → a'.stopVal = a.stopVal →
         a'.msgQ = a.msgQ → a'.stopTx = a.stopTx → a'.sigVal = a.sigVal → s'.isLocal = a'.isLocal →
         s'.preFailed = s.preFailed → s'.terminalEmitted = s.terminalEmitted → s'.stopReason = s.stopReason →
-        s'.drainReq = s.drainReq → s'.startedEmitted = s.startedEmitted → s'.killed = s.killed → Core a' s' := by
-      intro a' s' h0 h1 h3 h4 h5 h6 hl p1 p2 p3 p4 p5 p6
-      exact { preFailed := by rw [p1]; exact hc.preFailed, terminal := by rw [p2]; exact hc.terminal
+        s'.drainReq = s.drainReq → s'.startedEmitted = s.startedEmitted → s'.killed = s.killed →
+        s'.mustStart = s.mustStart → s'.took = s.took → Core a' s' := by
+      intro a' s' h0 h1 h3 h4 h5 h6 hl p1 p2 p3 p4 p5 p6 p7 p8
+      exact { preFailed := by rw [p1, p7]; exact hc.preFailed, terminal := by rw [p2]; exact hc.terminal
               localEq := hl
               freshSig := by intro hfr; rw [h0] at hfr; cases hfr
-              stopVal := by rw [h3, p3]; exact hc.stopVal
+              stopVal := by rw [h3, p3, p8]; exact hc.stopVal
               drain := by rw [h4, p4]; exact hc.drain
               stopTx := by rw [h5, p3]; exact hc.stopTx
               kill := by rw [h6, p6]; exact hc.kill
               armed := by intro _; exact h1
               notify := by intro h'; rw [h0] at h'; simp [Phase.isTask] at h'
               started := by intro h'; rw [p5, hse] at h'; cases h'
-              postStop := by intro r hr; rw [h0] at hr; cases hr }
+              postStop := postStop_of_none (by rw [h0]; simp) (by rw [p8]; exact hc.tookNone (by simp [hph])) }
     split
     · refine ⟨{ s with isLocal := true }, by simp [accepts_cons], hid, rfl, Or.inr ?_⟩
-      exact hnew _ _ rfl rfl rfl rfl rfl rfl rfl rfl rfl rfl rfl rfl rfl
+      exact hnew _ _ rfl rfl rfl rfl rfl rfl rfl rfl rfl rfl rfl rfl rfl rfl rfl
     · refine ⟨s, by simp [accepts_cons], hid, rfl, Or.inr ?_⟩
-      exact hnew _ _ rfl rfl rfl rfl rfl rfl (by simpa using hc.localEq) rfl rfl rfl rfl rfl rfl
+      exact hnew _ _ rfl rfl rfl rfl rfl rfl (by simpa using hc.localEq) rfl rfl rfl rfl rfl rfl rfl rfl
   · exact ⟨s, rfl, by rw [hsup]; exact h⟩
 
 theorem opPollSpawn_sim (a : Actor) (s : St) (supOk : Bool) (h : Inv me a s) :
@@ -1139,34 +1201,34 @@ theorem envOp_sim (a : Actor) (s : St) (op : AOp) (h : Inv me a s) :
     · -- the kill is issued; `s'` = the automaton after the optional `treeKill`
       have hmain : ∀ s' : St, s'.sup = s.sup → s'.preFailed = s.preFailed → s'.terminalEmitted = s.terminalEmitted →
           s'.stopReason = s.stopReason → s'.drainReq = s.drainReq → s'.isLocal = s.isLocal →
-          s'.startedEmitted = s.startedEmitted →
+          s'.startedEmitted = s.startedEmitted → s'.mustStart = s.mustStart → s'.took = s.took →
           (Core a s → (apiKill { a with sup := none }).1.sigVal = true → s'.killed = true) →
           Post me a.sup ({ (apiKill { a with sup := none }).1 with kids := none } : Actor) s' := by
-        intro s' q0 q1 q2 q3 q4 q5 q6 hk
+        intro s' q0 q1 q2 q3 q4 q5 q6 q7 q8 hk
         refine ⟨by simpa [hf.id] using h.1, by rw [q0]; exact h.2.1, ?_⟩
         rcases h.2.2 with hd | hc
         · left; simpa [hf.phase] using hd
         · right
-          exact { preFailed := by rw [q1]; exact hc.preFailed, terminal := by rw [q2]; exact hc.terminal
+          exact { preFailed := by rw [q1, q7]; exact hc.preFailed, terminal := by rw [q2]; exact hc.terminal
                   localEq := by rw [q5]; simpa [hf.isLocal] using hc.localEq
                   freshSig := by
                     intro hfr
                     have hfr' : a.phase = .fresh := by simpa [hf.phase] using hfr
                     rw [apiKill_fresh _ (by simpa using hfr')]
                     exact hc.freshSig hfr'
-                  stopVal := by rw [q3]; simpa [h2] using hc.stopVal
+                  stopVal := by rw [q3, q8]; simpa [h2] using hc.stopVal
                   drain := by rw [q4]; simpa [h1] using hc.drain
                   stopTx := by rw [q3]; simpa [h3] using hc.stopTx
                   kill := by simpa using hk hc
                   armed := by simpa [hf.phase, hf.armed] using hc.armed
                   notify := by simpa [hf.phase, hf.notify] using hc.notify
                   started := by rw [q6]; simpa [hf.phase] using hc.started
-                  postStop := by rw [q3, q4]; simpa [hf.phase] using hc.postStop }
+                  postStop := by rw [q8]; simpa [hf.phase] using hc.postStop }
       cases hk : (apiKill { a with sup := none }).2 with
       | true =>
-        exact ⟨{ s with killed := true }, by simp [hk, accepts_cons], hmain _ rfl rfl rfl rfl rfl rfl rfl (fun _ _ => rfl)⟩
+        exact ⟨{ s with killed := true }, by simp [hk, accepts_cons], hmain _ rfl rfl rfl rfl rfl rfl rfl rfl rfl (fun _ _ => rfl)⟩
       | false =>
-        refine ⟨s, by simp [hk], hmain _ rfl rfl rfl rfl rfl rfl rfl ?_⟩
+        refine ⟨s, by simp [hk], hmain _ rfl rfl rfl rfl rfl rfl rfl rfl rfl ?_⟩
         intro hc hsv
         rw [h4 hk] at hsv
         exact hc.kill (by simpa using hsv)
@@ -1271,7 +1333,7 @@ theorem run_sim (ops : List AOp) (a : Actor) (s : St) (h : Inv me a s) :
 
 theorem inv_init (id : Nat) : Inv id (Actor.init id) {} := by
   refine ⟨rfl, rfl, Or.inr ?_⟩
-  exact { preFailed := rfl, terminal := rfl, localEq := rfl, freshSig := by simp [Actor.init],
+  exact { preFailed := ⟨rfl, rfl⟩, terminal := rfl, localEq := rfl, freshSig := by simp [Actor.init],
           stopVal := by simp [Actor.init], drain := by simp [Actor.init],
           stopTx := by simp, kill := by simp [Actor.init], armed := by simp [Actor.init],
           notify := by simp [Actor.init, Phase.isTask], started := by simp, postStop := by simp [Actor.init] }
